@@ -4,6 +4,7 @@ import (
 	"bufio"
 	"encoding/json"
 	"fmt"
+	"math/rand"
 	"os"
 	"runtime/debug"
 	"sort"
@@ -51,12 +52,12 @@ type Result struct {
 	Sample      any            `json:"sample,omitempty"`
 	Violations  []*Violation   `json:"violations,omitempty"` // one per distinct (class,key) of this run
 	Scenario    *Scenario      `json:"scenario,omitempty"`   // attached when there are violations
-	Panic       string         `json:"panic,omitempty"`    // harness/machinery failure (exit 2), not a violation
+	Panic       string         `json:"panic,omitempty"`      // harness/machinery failure (exit 2), not a violation
 
 	mu sync.Mutex // the recording helpers may be called from tasks woken at the same simulated instant
 }
 
-func (r *Result) Fault(k string)       { r.FaultN(k, 1) }
+func (r *Result) Fault(k string) { r.FaultN(k, 1) }
 func (r *Result) FaultN(k string, n int) {
 	r.mu.Lock()
 	defer r.mu.Unlock()
@@ -74,6 +75,7 @@ func (r *Result) ProbeN(k string, n int) {
 	}
 	r.Probes[k] += n
 }
+
 // Violate records a violation unless one with the same (class,key) was already recorded in this
 // run; it returns the new record (to attach Pinned) or nil.
 func (r *Result) Violate(class, key string, step int, format string, a ...any) *Violation {
@@ -134,6 +136,9 @@ func RunInBubble(t *testing.T, name string, f func(t *testing.T) *Result) (res *
 						res = &Result{Panic: fmt.Sprint(r) + "\n" + string(debug.Stack())}
 					}
 				}()
+				// the package-level generator of math/rand (retry back-off jitter in dolt's dependencies)
+				// is part of the run: same run, same sequence
+				rand.Seed(int64(curRunSeed))
 				res = f(t)
 				done = true
 			})
@@ -190,6 +195,7 @@ func WorkerMain(t *testing.T, reg map[string]Harness) {
 			}
 			curRunIndex = i
 			sc := h.Generate(seed, tier)
+			curRunSeed = seed
 			res := RunInBubble(t, "r", func(t *testing.T) *Result { return h.Execute(t, sc) })
 			res.Seed = seed
 			if res.Violated() || res.Panic != "" {
@@ -223,6 +229,7 @@ func WorkerMain(t *testing.T, reg map[string]Harness) {
 			}
 			return
 		}
+		curRunSeed = sc.Seed
 		res := RunInBubble(t, "r", func(t *testing.T) *Result { return h.Execute(t, sc) })
 		res.Seed = sc.Seed
 		res.Scenario = sc
@@ -240,13 +247,13 @@ func WorkerMain(t *testing.T, reg map[string]Harness) {
 // panic trace into a violation ("the process crashed") and replays it to confirm.
 
 type Sentinel struct {
-	RunIndex uint64     `json:"run_index"`
-	Seed     uint64     `json:"seed"`
-	Class    string     `json:"class"`
-	Key      string     `json:"key"`
-	Detail   string     `json:"detail"`
-	Scenario *Scenario  `json:"scenario"`
-	Case     int        `json:"case"` // index of the case in flight within the run (for resuming after it)
+	RunIndex uint64    `json:"run_index"`
+	Seed     uint64    `json:"seed"`
+	Class    string    `json:"class"`
+	Key      string    `json:"key"`
+	Detail   string    `json:"detail"`
+	Scenario *Scenario `json:"scenario"`
+	Case     int       `json:"case"` // index of the case in flight within the run (for resuming after it)
 }
 
 // SkipCases is set by the coordinator when it resumes a run after a crash of the process: the
@@ -255,6 +262,7 @@ var SkipCases = func() int { n, _ := strconv.Atoi(os.Getenv("DSIM_SKIP")); retur
 
 var sentinelPath = os.Getenv("DSIM_SENTINEL")
 var curRunIndex uint64
+var curRunSeed uint64 = 1
 
 // ArmSentinel records the case about to run. pinned is the scenario body that replays it.
 func ArmSentinel(sc *Scenario, pinned []byte, caseIdx int, class, key, detail string) {
